@@ -327,6 +327,11 @@ SOLO_COMPOSITES = [
         obj({"t": {"type": "string", "enum": ["idle"]}}, ["t"]),
         obj({"t": {"type": "string", "enum": ["run"]}, "cmd": STR, "retries": {"type": "integer", "format": "uint32", "minimum": 0, "default": 3},
              "verbose": {"type": "boolean", "default": True}}, ["t", "cmd"])]}, enf=True),
+    # boolean schemas as union operands (generators write `true` for "anything" and `false` for a removed alternative)
+    L("anyof_true_str", {"anyOf": [True, STR]}, ff=False, enf=False, sup=False),
+    L("anyof_false_str", {"anyOf": [False, STR]}, ff=False, enf=False, sup=False, strish=True),
+    L("oneof_false_int", {"oneOf": [False, INT]}, ff=False, enf=False, sup=False),
+    L("oneof_obj_false", {"oneOf": [obj({"p": STR}, ["p"]), False, obj({"q": INT}, ["q"])]}, ff=False, enf=False, sup=False),
     # compound member types whose ELEMENTS are named generated types, with and without a default (the element's path must be written for
     # the scope it is used in: struct field, mod builder, mod defaults)
     L("tuple_named", {"type": "array", "items": [{"$ref": "#/definitions/XKind"}, {"$ref": "#/definitions/XObj"}], "minItems": 2, "maxItems": 2},
